@@ -255,3 +255,26 @@ Definition wf_kprocstat (r : kprocstat) : bool :=
 (* the correspondence run accepts an implementation float y for the exact value x when
    |y - x| <= tol x = 2^-48 * max(1, |x|) *)
 Definition tol (x : Q) : Q := (Qmax 1 (Qabs x) * (1 # 281474976710656))%Q.
+
+(* ------------------------------------------------------- name(), now *)
+(* what the process looks like at one moment: its stat record and what reading its cmdline gives *)
+Record know := { n_stat : kstat; n_cmd : cread }.
+Definition now_state (k : know) : nstate := {| ns_stat := SData (k_stat (n_stat k)); ns_cmd := n_cmd k |}.
+Definition state_z (r : kstat) : bool := match fld 3 r with Some (90 :: _) => true | _ => false end.
+(* the documented answer: the kernel's comm; when it is 15 bytes or more (i.e. possibly truncated)
+   and the command line is readable, non-empty and the base name of its first argument starts
+   with the comm, that longer name.  A zombie (empty / unreadable cmdline) and a denied cmdline
+   give the comm.  None: the call fails (process gone between the two reads). *)
+Definition spec_name_now (k : know) : option bytes :=
+  let comm := k_comm (n_stat k) in
+  if (length comm <? 15)%nat then Some comm
+  else match n_cmd k with
+       | CEACCES => Some comm
+       | CESRCH | CENOENT => if state_z (n_stat k) then Some comm else None
+       | CData [] => Some comm
+       | CData d =>
+         match cmdline_args d with
+         | a0 :: _ => if prefixb comm (basename a0) then Some (basename a0) else Some comm
+         | [] => Some comm
+         end
+       end.
